@@ -712,7 +712,14 @@ impl PoolGen {
                         asset_decimals.push(asset_decimals[0]);
                     }
                     1 => {
-                        asset_decimals.pop();
+                        if self.rng.gen_bool(0.5) {
+                            asset_decimals.pop();
+                        } else {
+                            // too few assets for either pool type: one, or none
+                            let keep = self.rng.gen_range(0..2);
+                            asset_denoms.truncate(keep);
+                            asset_decimals.truncate(keep);
+                        }
                     }
                     2 => *pool_type = PoolType::StableSwap { amp: 0 },
                     3 => pool_fees.swap_fee = Fee { share: Decimal::percent(100) },
